@@ -19,6 +19,31 @@ chk("C13", "exploration", "property-based testing (Hypothesis): operation histor
     "Lateness <= 4 ms per wake-up; coincidences within 1 us are left open; timer notifications other than tick/complete "
     "are not asserted.",
     "DESIGN.md §4 C13")
+chk("C04", "exploration", "property-based testing (Hypothesis): generated ball histories against a harness-owned physical world (ground-truth model), invariants at every ball event and at rest",
+    "Generated machines (1-5 balls, switch- or entrance-counted trough, optional outhole, coil or mechanical launcher with "
+    "1-2 switches, optional switch- or entrance-counted lock, max_eject_attempts, device order), per-device lists of "
+    "physical eject outcomes (arrives, arrives late, falls back, too weak) and timed histories of requests and physics "
+    "(drains, lock shots, playfield hits, plunges, balls bouncing out, knocks on a full entrance) run on the real ball "
+    "devices of the virtual platform; the world turns its ball positions into switch changes and reacts to the coil "
+    "pulses it sees. Checked inside a handler of every ball event: no device count below 0 or above capacity, no "
+    "negative playfield count, no pulse towards a device whose content plus balls rolling to it fill it; at rest (no "
+    "ball moving, 75 s virtual quiet): every count equals the physical content, the playfield count equals the loose "
+    "balls and all counts sum to num_balls_known. Sub-check 'calm' repeats this with entries into a device held back "
+    "while that device's own eject is unconfirmed. Search over a documented physical envelope, not proof.",
+    "Balls are never created/destroyed, clean switches, >= 400 ms between two balls on one entrance switch, late "
+    "arrivals below ball_missing_timeout, entrance-counted devices only eject successfully, no foreign playfield hit "
+    "while a failed playfield eject awaits its verdict, counts of a device which reported itself broken are not "
+    "compared. Three recorded findings (known_findings.json).",
+    "DESIGN.md §4 C04/C05")
+chk("C05", "exploration", "property-based testing (Hypothesis): generated request/failure histories against a physical world model, bounded-liveness oracle at rest",
+    "Same generated machines and histories as C04. At rest every device must be idle (or have posted _broken after "
+    "max_eject_attempts failures), no queued request may have a ball physically upstream of it, requested balls must have "
+    "been physically delivered or still be queued, every too-weak or fall-back eject must be followed by another pulse "
+    "or an eject_failed event, the machine must come to rest within 60 rounds of 75 s virtual quiet and no task may "
+    "crash. 'Eventually' is decided as this bounded liveness under the virtual clock; true liveness is out of reach.",
+    "Same envelope as C04; a mechanical plunger is eventually plunged by the player when MPF waits for it; the history "
+    "ends when a device reports itself broken; at most capacity-many request_ball calls per device.",
+    "DESIGN.md §4 C04/C05")
 chk("C03", "exploration", "property-based testing (Hypothesis): generated switch timelines vs. a sequential reference model of state, deadlines and registry",
     "Generated timelines of raw/logical reports on NO and NC switches (duplicates included), handler registrations with "
     "hold times, duplicate registrations, removals (also from callbacks), queries and integer-ms advances are run on the "
